@@ -67,6 +67,9 @@ type Stream struct {
 	cliErr error
 
 	Sent, Recvd int // client-side counters (messages sent / responses read)
+
+	// OnFinish, when set, runs in the handler's task at the instant the handler has returned (observation only).
+	OnFinish func()
 }
 
 func (n *Net) newStream(kind string) *Stream {
@@ -184,7 +187,11 @@ func (st *Stream) finish(err error) {
 	st.mu.Lock()
 	st.finished = true
 	st.result = err
+	fn := st.OnFinish
 	st.mu.Unlock()
+	if fn != nil {
+		fn()
+	}
 	st.stop()
 	c := "OK"
 	if err != nil {
